@@ -12,5 +12,5 @@ mkdir -p $W/verif && cp -r /verif/lab /verif/spec /verif/known_findings.json /ve
 sed -i "s#=> /repo#=> $W/repo#" $W/verif/lab/go.mod
 export GOFLAGS=-mod=mod GOPROXY=off GOSUMDB=off GOTOOLCHAIN=local VERIF_DIR=$W/verif VERIF_REPO=$W/repo
 ( cd $W/verif/lab && go build -tags verif -o $W/vcheck ./cmd/vcheck ) || { echo "BUILD FAILED"; git -C /repo worktree remove --force $W/repo; rm -rf $W; exit 3; }
-( cd $W/verif && timeout 1500 $W/vcheck $P --tier $T 2>&1 | grep -E "VIOLATION|violation detail|KNOWN|held on|CHECK-BROKEN" | cut -c1-330 | sed "s#$W##g" | head -6 )
+( cd $W/verif && timeout 1500 $W/vcheck $P --tier $T 2>&1 | tee /tmp/seedtest-last.log | grep -E "VIOLATION|violation detail|KNOWN|held on|CHECK-BROKEN" | cut -c1-330 | sed "s#$W##g" | head -6 )
 git -C /repo worktree remove --force $W/repo; rm -rf $W
